@@ -326,7 +326,8 @@ def step (s : DState) (line : String) : DState × String :=
           let deps := joinOr "|" (r.deps.map showDep)
           let wr := joinOr "," (r.writes.map (fun w => hexStr w.1))
           ({ s with world := w },
-           "out=" ++ showFail r.fail ++ " resp=" ++ showResp r.resp ++ " events=" ++ evs ++ " deps=" ++ deps ++ " writes=" ++ wr)
+           "out=" ++ showFail r.fail ++ " resp=" ++ showResp r.resp ++ " events=" ++ evs ++ " deps=" ++ deps ++ " writes=" ++ wr
+             ++ " doc=" ++ joinOr "," ((Spec.documented ext m).map hexStr))
       | [] => (s, "bad-op")
     | "query" =>
       match rest with
